@@ -83,7 +83,14 @@ def namings(tier: str) -> list[dict]:
     spf = [n for n in out if n["family"] == "size_param"]
     sel = spf + (pick(acc, want * 4 // 10) + pick(rej, want * 1 // 10) + pick(resv, want * 2 // 10)
            + pick(dwf, want * 3 // 10))
-    return sel, gen_states, len(out)
+    # ONE array under TWO output keys (a computed array: T02, an input: T03), and a
+    # third reader of it: each key must still appear
+    twice = []
+    for n in pick([n for n in acc if n["outs"][0] != n["outs"][1] and n["template"] == "T00"],
+                  want // 10):
+        for t in ("T02", "T03"):
+            twice.append({**n, "template": t, "id": n["id"] + t, "family": "same_array_twice"})
+    return sel + twice, gen_states, len(out)
 
 
 def build_template(n: dict) -> tuple[Any, dict, dict]:
@@ -126,14 +133,22 @@ def build_template(n: dict) -> tuple[Any, dict, dict]:
         tags = (ImplStored(), Named(n["named"]))
     m = (a * b + D).tagged(tags)
     o1 = pt.sum(m) + pt.sum(E)
-    o2 = a if n["template"] == "T01" else m * 2 + E
+    o2 = a if n["template"] in ("T01", "T03") else m * 2 + E
+    if n["template"] in ("T02", "T03"):
+        o1 = o2                  # the SAME array object under both keys
     outs = {n["outs"][0]: o1, n["outs"][1]: o2}
+    if n["template"] in ("T02", "T03"):
+        outs["zz_third"] = o2 * 3 + pt.sum(m) + pt.sum(E)
     wrapped = {"d1": d1, "d2": d2}
 
     def ref(av: np.ndarray, bv: np.ndarray) -> dict:
         mm = av * bv + d1
-        return {n["outs"][0]: mm.sum() + d2.sum(),
-                n["outs"][1]: av if n["template"] == "T01" else mm * 2 + d2}
+        r2 = av if n["template"] in ("T01", "T03") else mm * 2 + d2
+        r = {n["outs"][0]: mm.sum() + d2.sum(), n["outs"][1]: r2}
+        if n["template"] in ("T02", "T03"):
+            r[n["outs"][0]] = r2
+            r["zz_third"] = r2 * 3 + mm.sum() + d2.sum()
+        return r
     return outs, wrapped, {"ref": ref}
 
 
@@ -160,7 +175,7 @@ def observe(n: dict) -> dict:
     args = [a.name for a in knl.args]
     out_args = [a.name for a in knl.args if getattr(a, "is_output", False)]
     temps = sorted(knl.temporary_variables)
-    user = set(n["ins"]) | set(n["outs"]) | ({n["sp"]} if "sp" in n else set()) | (
+    user = set(n["ins"]) | set(n["outs"]) | set(outs) | ({n["sp"]} if "sp" in n else set()) | (
         {n["named"]} - {"-"}) | (
         {n["dw"]} if n.get("kind") == "named" else set())
     rng = np.random.default_rng(abs(hash(n["id"])) % (2 ** 31))
@@ -195,7 +210,8 @@ def observe(n: dict) -> dict:
         "verdict": "accepted", "args": args, "out_args": out_args, "temps": temps,
         "inames": sorted(knl.all_inames()), "substs": sorted(knl.substitutions),
         "input_names": sorted(set(n["ins"]) | ({n["sp"]} if "sp" in n else set())),
-        "out_keys": sorted(n["outs"]),
+        "out_keys": sorted(set(n["outs"]) | ({"zz_third"} if n["template"] in ("T02", "T03")
+                                             else set())),
         "result_keys": result_keys,
         "named_honoured": ([n["named"]] if n["named"] != "-" else [])
         + ([n["dw"]] if n.get("kind") == "named" else []),
